@@ -27,7 +27,7 @@ pub use iceberg::{IcebergScanExec, PartitionFilter};
 pub use limit::LimitExec;
 pub use morsel_agg::MorselAggregateExec;
 pub use parquet::{ParquetScanExec, ParquetTable, ParquetWriter};
-pub use project::ProjectExec;
+pub use project::{ProjectExec, RelabelExec};
 pub use scan::{ColumnStatistics, MemoryTable, MemoryTableExec, TableProvider, TableStatistics};
 pub use sort::SortExec;
 pub use spillable::{ExternalSortExec, SpillableHashAggregateExec, SpillableHashJoinExec};
